@@ -24,12 +24,16 @@ def val(a):
         return None
     if a == 201:
         return (1,)
+    if 300 <= a < 400:
+        return float(a - 300)      # equal to the int a-300, but not an int
     raise ValueError(a)
 
 
 def atom(v):
     if type(v) is int:
         return v
+    if type(v) is float:
+        return 300 + int(v)
     if type(v) is str:
         return 100 + int(v)
     if v is None:
@@ -68,6 +72,28 @@ VALIDATORS = {"VAll": None, "VInt": v_int, "VCInt": v_cint}
 OWNERS = {"VAll": HAny, "VInt": HInt, "VCInt": HCInt}
 PROBE = {"VAll": [(200, 200), (105, 105)], "VInt": [(200, None), (105, None), (5, 5)],
          "VCInt": [(200, None), (105, 5), (5, 5)]}
+
+
+def shaped(items, kind):
+    """An argument iterable of the given shape (one-shot iterators expose double consumption)."""
+    if kind == "iter":
+        return iter(items)
+    if kind == "gen":
+        return (x for x in items)
+    if kind == "tuple":
+        return tuple(items)
+    return items
+
+
+def args_of(ts, op):
+    kinds = op[2] if len(op) > 2 else []
+    out = []
+    for i, l in enumerate(op[1]):
+        if l == "self":
+            out.append(ts)
+        else:
+            out.append(shaped([val(a) for a in l], kinds[i] if i < len(kinds) else "list"))
+    return out
 
 
 def make(case):
@@ -131,7 +157,7 @@ def run_case(case):
             elif k == "Clear":
                 ts.clear()
             elif k == "Update":
-                ts.update(*[ts if l == "self" else [val(a) for a in l] for l in op[1]])
+                ts.update(*args_of(ts, op))
             elif k in ("Ior", "Iand", "Isub", "Ixor"):
                 items = [val(a) for a in op[2]]
                 arg = (set(items) if op[1] == "set" else frozenset(items) if op[1] == "frozenset" else
@@ -143,11 +169,12 @@ def run_case(case):
                 if r is not ts:
                     raise RuntimeError("in-place operator returned a new object")
             elif k == "DiffUpdate":
-                ts.difference_update(*[ts if l == "self" else [val(a) for a in l] for l in op[1]])
+                ts.difference_update(*args_of(ts, op))
             elif k == "InterUpdate":
-                ts.intersection_update(*[ts if l == "self" else [val(a) for a in l] for l in op[1]])
+                ts.intersection_update(*args_of(ts, op))
             elif k == "SymDiffUpdate":
-                ts.symmetric_difference_update(ts if op[1] == "self" else [val(a) for a in op[1]])
+                ts.symmetric_difference_update(ts if op[1] == "self" else
+                                               shaped([val(a) for a in op[1]], op[2] if len(op) > 2 else "list"))
             elif k == "Copy":
                 if op[1] == "copy":
                     new = copy.copy(ts)
